@@ -99,7 +99,9 @@ namespace nmtools::view
             }
             return result;
             #else // NMTOOLS_OPENCL_BUILD_KERNELS
-            return reduce_maximum(sliced,None,None,False);
+            // NOTE: (array, axis, dtype, initial, keepdims): the 4-argument form takes its last argument as INITIAL,
+            // and False converts to an initial value of 0 (wrong maximum for windows of negative elements)
+            return reduce_maximum(sliced,None,None,None,False);
             #endif // NMTOOLS_OPENCL_BUILD_KERNELS
         };
     };
